@@ -786,6 +786,14 @@ func (c *ctx) tierInt(q, t int) int {
 	return q
 }
 
+// tierFixed: a size (number of clients, sequence length, sweep bound, batch size) - never multiplied by VERIF_DEPTH.
+func (c *ctx) tierFixed(q, t int) int {
+	if c.thorough() {
+		return t
+	}
+	return q
+}
+
 func depthFactor() int {
 	d, err := strconv.Atoi(os.Getenv("VERIF_DEPTH"))
 	if err != nil || d < 1 {
